@@ -145,7 +145,11 @@ impl Engine {
                                 INFRA.store(true, Ordering::SeqCst);
                                 let mut a = self.acc.lock().unwrap();
                                 if a.infra.is_none() {
-                                    a.infra = Some(m);
+                                    a.infra = Some(m.clone());
+                                    // keep the case for diagnosis (not a replay of a violation)
+                                    let doc = json!({"property": self.cfg.property, "engine": self.cfg.engine, "part": part, "seed": self.cfg.seed, "message": m, "case": serde_json::to_value(&c).unwrap_or(Value::Null)});
+                                    let _ = std::fs::create_dir_all("/verif/.cache/out");
+                                    let _ = std::fs::write(format!("/verif/.cache/out/infra-{}.json", self.cfg.property), serde_json::to_string(&doc).unwrap_or_default());
                                 }
                                 Ok(())
                             }
@@ -255,6 +259,7 @@ impl Engine {
             "assumptions": assumptions,
             "infra": a.infra,
             "exhaustive_parts": a.exhaustive_parts,
+            "tool_runs_repeated_after_watchdog": crate::run::RETRIED_TIMEOUTS.load(Ordering::SeqCst),
             "wall_s": self.start.elapsed().as_secs_f64(),
         });
         if let Some(p) = out.parent() {
